@@ -239,12 +239,30 @@ def run(ctx):
             mode = ""
             ctx.violation("malformed grid written | " + sig, d, replay=dict(config=a.config))
 
+    rerun = []
     for a in arts:
         if a.ok:
             judge_grid(a, a.config["label"])
         elif a.outcome == "timeout":
-            ctx.violation("generation neither raised nor finished (refine_timeout=None, harness watchdog) - re-run needed",
-                          dict(config=a.config["label"]), replay=dict(config=a.config))
+            # our own refine_timeout=None removed the library's guard against a non-terminating
+            # refinement: not a verdict.  Re-run with the default refine_timeout; only a run that
+            # neither raises nor finishes with the guard ON is a violation.
+            c2 = copy.deepcopy({k: v for k, v in a.config.items() if k not in ("label", "tags")})
+            c2["options"].pop("refine_timeout", None)
+            c2["label"] = a.config["label"] + " [re-run with default refine_timeout]"
+            c2["tags"] = ["rerun"]
+            c2["watchdog_s"] = 1500
+            rerun.append(c2)
+    if rerun:
+        stats["timeouts_without_guard_rerun"] = len(rerun)
+        for a in corpus.ensure(rerun, log=ctx.log, timeout=1500):
+            if a.ok:
+                judge_grid(a, a.config["label"])
+            elif a.outcome in ("timeout", "crash"):
+                ctx.violation("generation neither raised an exception nor finished (library guards on)",
+                              dict(config=a.config["label"], outcome=a.outcome), replay=dict(config=a.config))
+            else:
+                stats["hostile_refused"] += 1
     for (c, expect), a in zip(H + CL, h_arts):
         label = c.get("label", "?")
         is_cli = c.get("family", "G") != "G"
